@@ -111,11 +111,47 @@ def main():
                 j4, p4, _ = s.request("1 + 1", timeout=10)
                 s3, s4 = native.response_summary(j3), native.response_summary(j4)
                 bad = ("LEAK" in p3) or s3[0] in ("none", "err") or s4[:2] != ("ok", "2") or not s.alive()
-                return {"reproduced": bad, "artefact": {"requests": [body, ":abort", ":resume", "1 + 1"]},
-                        "detail": f"resume->{s3[:2]} printed={p3!r}; probe->{s4[:2]} alive={s.alive()}"}
+                detail = f"resume->{s3[:2]} printed={p3!r}; probe->{s4[:2]} alive={s.alive()}"
+                if bad:
+                    return {"reproduced": True, "artefact": {"requests": [body, ":abort", ":resume", "1 + 1"]},
+                            "detail": detail}
             finally:
                 s.close()
+            # the property's own oracle: after :abort every continuation answers as it does in a fresh session
+            defs = "fun f() {\n1\n}" if shape["frames"] > 1 else None
+            for cont in CONTINUATIONS:
+                got = script(([body, ":abort"]), cont)
+                want = script(([defs] if defs else []), cont)
+                if got != want:
+                    return {"reproduced": True, "artefact": {"requests": [body, ":abort"] + cont,
+                                                             "aborted_session": got, "fresh_session": want},
+                            "detail": f"after :abort {cont} answers {got}, a fresh session {want}"}
+            return {"reproduced": False, "artefact": {"requests": [body, ":abort", ":resume", "1 + 1"]},
+                    "detail": detail + f"; {len(CONTINUATIONS)} continuations answer as in a fresh session"}
         return replay
+
+    CONTINUATIONS = [
+        ["1 + nosuchvar", ":skip", "1 + 1"],
+        ["1 + nosuchvar", ":replace 3", "1 + 1"],
+        [":skip", "1 + 1"],
+        [":replace 7", "2 + 2"],
+        ["let zz = 5", "zz + 1"],
+        ["y"],
+    ]
+
+    def script(prefix, cont):
+        s = native.JsonSession()
+        try:
+            for r in prefix:
+                s.request(r, timeout=10)
+            out = []
+            for r in cont:
+                j, p, _ = s.request(r, timeout=10)
+                out.append([list(native.response_summary(j)[:2]), p])
+            out.append(s.alive())
+            return out
+        finally:
+            s.close()
 
     results = explore(run)
     C.note_paths(results)
